@@ -329,7 +329,7 @@ theorem no_deadlock_aux (P : Program) (F : Flags) (rank : Nat → Nat) (hr : Sem
           by_cases hfin : ex.phase = .execDoneP ∨ ex.phase = .released ∨ ex.phase = .done
           · refine ⟨_, step_of_local P F c a x .wWake hx ?_⟩
             rw [wait_wReleased F _ x hp]
-            have : (obsOf F c a x).execResult () = some ex.res := by
+            have : (obsOf F c a x).execResult () = some ex.out := by
               simp only [obsOf, execResultOf, hw, he, hex]
               rcases hfin with e' | e' | e' <;> simp [e']
             rw [this]; rfl
